@@ -345,8 +345,14 @@ v("C16", "unbind-before-stop", "keep", [], [("log_refresh.go",
   "\tfor _, tag := range tagRegistry {\n\t\ttag.logger = nil\n\t}\n\tfor _, l := range loggerMap {\n\t\tl.logger = nil\n\t}\n\tfor _, l := range global.loggers {\n\t\tl.Stop()\n\t}\n\tfor _, a := range global.appenders {\n\t\ta.Stop()\n\t}\n")])
 
 # ---------------------------------------------------------------- C17
-v("C17", "recover-keeps-partial-map", "break", ["C17.recover"], [("expr/parse.go",
+# the named result is written only by the return statements, so it is nil whenever a panic is in flight: dropping the
+# reset changes nothing (the evaluation of Parse through the ANTLR runtime showed this; it used to be listed as a break)
+v("C17", "recover-without-redundant-reset", "keep", [], [("expr/parse.go",
   "\t\tif r := recover(); r != nil {\n\t\t\tret = nil\n", "\t\tif r := recover(); r != nil {\n")])
+# ... but with the result published before the walk, the missing reset hands out a partial map together with the error
+v("C17", "recover-keeps-partial-map", "break", ["C17"], [("expr/parse.go",
+  "\t\tif r := recover(); r != nil {\n\t\t\tret = nil\n", "\t\tif r := recover(); r != nil {\n"),
+  ("expr/parse.go", "\tantlr.ParseTreeWalkerDefault.Walk(l, p.Root())", "\tret = l.Result\n\tantlr.ParseTreeWalkerDefault.Walk(l, p.Root())")])
 v("C17", "unquote-n-as-r", "break", ["C17.escapes"], [("expr/parse.go",
   "\t\t\tcase 'n':\n\t\t\t\tc = '\\n'", "\t\t\tcase 'n':\n\t\t\t\tc = '\\r'")])
 v("C17", "strconv-unquote-restored", "break", ["C17.escapes"], [("expr/parse.go",
